@@ -162,7 +162,13 @@ def run_shard(ctx):
         if nviol[sig] <= 3 and len(viols) < 40:
             viols.append({'property': 'C20', 'sig': sig, 'symptom': sym, 'detail': detail, 'case': case, 'show': showp})
     progs = programs(tier, seed, part, nparts)
-    for idx, item in enumerate(progs):
+    order = list(range(len(progs)))
+    if ctx.get('order') == 'reversed':
+        order.reverse()
+    elif ctx.get('order') == 'shuffled':
+        random.Random(seed * 7 + part).shuffle(order)
+    for idx in order:
+        item = progs[idx]
         if time.time() - t0 > budget:
             truncated = True
             break
@@ -209,7 +215,13 @@ def run_shard(ctx):
     PK.scan_sample = False
     cprogs = class_programs(tier, seed, part, nparts)
     ccompared = 0
-    for idx, prog in enumerate(cprogs):
+    corder = list(range(len(cprogs)))
+    if ctx.get('order') == 'reversed':
+        corder.reverse()
+    elif ctx.get('order') == 'shuffled':
+        random.Random(seed * 7 + part).shuffle(corder)
+    for idx in corder:
+        prog = cprogs[idx]
         if time.time() - t0 > budget:
             truncated = True
             break
@@ -251,9 +263,12 @@ def plan(check, tier, seed, tp):
     jobs = []
     hss = {'quick': [0, 1, 2, 3], 'thorough': list(range(24))}[tier]
     nparts = 4
-    for h in hss:
+    # the same program list is evaluated in a different order in some processes: a value that depends
+    # on what was built before it (in that process) shows up as a fingerprint difference across jobs
+    orders = ['forward', 'reversed', 'shuffled', 'forward']
+    for k, h in enumerate(hss):
         for p in range(nparts):
-            jobs.append(('p%d.h%d' % (p, h), {'part': p, 'nparts': nparts}, h))
+            jobs.append(('p%d.h%d' % (p, h), {'part': p, 'nparts': nparts, 'order': orders[k % len(orders)]}, h))
     return jobs
 
 
@@ -262,7 +277,7 @@ def cross_check(check, shard_results):
     texts = {}
     for pi, res in shard_results:
         for k, fp in res.get('fingerprints', {}).items():
-            by_prog.setdefault(k, {})[pi['hashseed']] = fp
+            by_prog.setdefault(k, {})['%s/%s' % (pi['hashseed'], pi['job'].get('order', 'forward'))] = fp
         for k, fp in res.get('text_fingerprints', {}).items():
             texts.setdefault(k, set()).add(fp)
     viols = []
@@ -272,9 +287,9 @@ def cross_check(check, shard_results):
         if len(vals) > 1 and not any(v.startswith('status:timeout') for v in vals):
             ndiff += 1
             if len(viols) < 3:
-                viols.append({'property': check, 'sig': 'seed-dependent', 'symptom': 'seed-dependent',
-                              'detail': 'program %s: semantic fingerprint per PYTHONHASHSEED %r' % (k, d), 'case': {'kind': 'hist-cross', 'id': k},
-                              'no_replay': True, 'hashseed': sorted(d)[0]})
+                viols.append({'property': check, 'sig': 'seed-or-history-dependent', 'symptom': 'seed-or-history-dependent',
+                              'detail': 'program %s: semantic fingerprint per (PYTHONHASHSEED/evaluation order) %r' % (k, d),
+                              'case': {'kind': 'hist-cross', 'id': k}, 'no_replay': True, 'hashseed': 0})
     info = {'programs_compared_across_seeds': len(by_prog), 'programs_with_seed_dependent_text': sum(1 for s in texts.values() if len(s) > 1),
             'programs_with_seed_dependent_meaning': ndiff}
     # make the witnesses replayable: regenerate the program behind each id
@@ -288,8 +303,9 @@ def cross_check(check, shard_results):
                 v['case'].update({'family': 'dsl', 'prog': G.strip_forms(item['prog']), 'form': item.get('form', 'c')})
             else:
                 v['case'].update({'family': 'cls', 'prog': class_programs(job['tier'], job['seed'], part, job['nparts'])[idx]})
-            v['case']['seeds'] = sorted(by_prog[pid])
-            v['no_replay'] = False
+            v['case']['configs'] = sorted(by_prog[pid])
+            v['case']['job'] = {'tier': job['tier'], 'seed': job['seed'], 'part': part, 'nparts': job['nparts'], 'check': 'C20', 'budget': 600}
+            v['no_replay'] = True
             v['show'] = json.dumps(v['case']['prog'])[:300]
     return viols, info
 
@@ -364,15 +380,24 @@ def replay(case, check, seed=0):
                 if seen:
                     break
     elif kind == 'hist-cross' and 'prog' in case:
-        import os, subprocess, sys
+        import os, subprocess, sys, tempfile
         fps = {}
-        for h in case.get('seeds', [0, 1, 2, 3]):
+        for cfg in case.get('configs', ['0/forward', '1/reversed']):
+            h, order = cfg.split('/')
             env = dict(os.environ, PYTHONHASHSEED=str(h))
-            r = subprocess.run([sys.executable, '-W', 'ignore', '-m', 'rv.hist', json.dumps(case)], capture_output=True, text=True,
-                               env=env, timeout=120, cwd=os.path.dirname(os.path.dirname(os.path.abspath(__file__))))
-            fps[h] = r.stdout.strip().splitlines()[-1] if r.stdout.strip() else 'no-output'
+            job = dict(case.get('job') or {}, order=order, mode='shard')
+            with tempfile.TemporaryDirectory() as td:
+                jf, rf = os.path.join(td, 'j.json'), os.path.join(td, 'r.json')
+                json.dump(job, open(jf, 'w'))
+                subprocess.run([sys.executable, '-W', 'ignore', '-m', 'rv.worker', jf, rf], env=env, timeout=900,
+                               cwd=os.path.dirname(os.path.dirname(os.path.abspath(__file__))), capture_output=True)
+                try:
+                    fps[cfg] = json.load(open(rf)).get('fingerprints', {}).get(case['id'], 'missing')
+                except Exception:
+                    fps[cfg] = 'no-result'
         if len(set(fps.values())) > 1:
-            out.append({'symptom': 'seed-dependent', 'detail': 'semantic fingerprint per PYTHONHASHSEED %r' % fps, 'event': {}, 'sig': 'seed-dependent'})
+            out.append({'symptom': 'seed-or-history-dependent', 'detail': 'semantic fingerprint per (PYTHONHASHSEED/order) %r' % fps, 'event': {},
+                        'sig': 'seed-or-history-dependent'})
     elif kind == 'hist-pool':
         P = PoolInterp(seed=seed)
         for _ in range(6):
